@@ -13,7 +13,13 @@ for sid in sorted(os.listdir(os.path.join(VERIF, "seeded")), key=lambda s: (s.sp
     nf = [k for k, v in fr.items() if "no-failing-input-found" in v.get("first_line", "")]
     summ = (m.get("summary") or m.get("what") or "").replace("|", "/").replace("\n", " ")
     files = ", ".join(os.path.basename(f) for f in m.get("files_touched", []))
-    rows.append((sid, files, summ[:150] + ("…" if len(summ) > 150 else ""), ", ".join(caught) or "—", "yes" if own in caught else "NO", m.get("strengthened", "")))
+    fo = m.get("final_own", {})
+    own_txt = "yes" if own in caught else "NO"
+    if fo:
+        own_txt = ("yes" if fo.get("exit") == 1 else "NO") + (" (failing input)" if fo.get("with_failing_input") else " (no-failing-input-found)" if fo.get("exit") == 1 else "")
+    if m.get("neutralised"):
+        own_txt = "equivalent since F27"
+    rows.append((sid, files, summ[:150] + ("…" if len(summ) > 150 else ""), ", ".join(caught) or "—", own_txt, m.get("strengthened", "")))
 print("| seed | file(s) | change | caught by (quick tier) | own check | strengthening that was needed |")
 print("|------|---------|--------|------------------------|-----------|-------------------------------|")
 for r in rows:
